@@ -379,5 +379,51 @@ def _write_evidence(mod, tier, seed, t0, res, thms, obligations, discharged, sit
         "wall_s": round(time.time() - t0, 2),
         "violations": violations,
     }
+    try:
+        ev["coverage"].update(_source_map(mod))
+    except Exception as e:  # informational only: never turns a run into an alarm
+        ev["coverage"]["source_map_error"] = repr(e)
     with open(os.path.join(EVID, f"{mod.PID}.json"), "w") as f:
         json.dump(ev, f, indent=1, sort_keys=True, default=str)
+
+
+def _source_map(mod):
+    """Which functions of the files the property is anchored in are translated from the working tree on every run, which are
+    hand-modelled (tied by the correspondence run only), which are only seen by the oracle, which are out of scope.  The property
+    module declares SOURCE_MAP = {"<file>::<qualified name>": status}; the functions actually defined in the anchor files of
+    $MOUETTE_REPO are enumerated here (Python ast) so that the evidence also lists what the map does not mention (informational)."""
+    import ast
+    smap = getattr(mod, "SOURCE_MAP", None)
+    if not smap:
+        return {}
+    repo = os.environ.get("MOUETTE_REPO", "/repo")
+    anchors = []
+    with open(os.path.join(ROOT, "properties.jsonl")) as f:
+        for line in f:
+            rec = json.loads(line)
+            if rec["id"] == mod.PID:
+                anchors = rec.get("anchors", {}).get("files", [])
+    defined = set()
+    for rel in anchors:
+        path = os.path.join(repo, rel)
+        if not os.path.isfile(path):
+            continue
+        tree = ast.parse(open(path).read())
+
+        def walk(node, prefix):
+            for ch in ast.iter_child_nodes(node):
+                if isinstance(ch, (ast.FunctionDef, ast.AsyncFunctionDef)):
+                    defined.add(f"{rel}::{prefix}{ch.name}")
+                    walk(ch, f"{prefix}{ch.name}.")
+                elif isinstance(ch, ast.ClassDef):
+                    walk(ch, f"{prefix}{ch.name}.")
+        walk(tree, "")
+    counts = {}
+    for k, v in smap.items():
+        kind = v.split(":")[0].strip()
+        counts[kind] = counts.get(kind, 0) + 1
+    return {"source_map_counts": dict(sorted(counts.items())),
+            "source_map": dict(sorted(smap.items())),
+            "source_functions_in_anchor_files": len(defined),
+            "source_functions_not_in_map": sorted(defined - set(smap)),
+            "source_map_entries_not_in_source": sorted(k for k in smap if k not in defined and k.split("::")[0] in anchors)}
